@@ -10,6 +10,7 @@ CONSTANTS
   OrphanMetaKept = FALSE
   CorruptIgnoresMeta = FALSE
   MayRelease = FALSE
+  DropBeforeDrain = FALSE
 INVARIANTS GenState
 VIEW GView
 CONSTRAINT Bounded
